@@ -1,4 +1,5 @@
 import PewProofs.SyncGeom
+import PewProofs.SyncSpot
 
 /-! # C08 — `sync (render a)`: composition of the pieces -/
 namespace Pew.Sync
@@ -201,11 +202,6 @@ theorem grid (a : Acq) (sel : Option (List Int)) (p0 : Pattern) (H : Hyp a sel p
   exact ⟨cx, cy, by rw [e1]; exact hcx, by rw [e2]; exact hcy⟩
 
 /-! ## the segment of an imported line -/
-
-/-- ground-truth pixel (row, column) of step `j` of a line -/
-def truthPixel (a : Acq) (sel : Option (List Int)) (p0 : Pattern) (l : LineRec) (j : Nat) : Int × Int :=
-  (((l.p.stepCell l.i j).2 - (truthOrigin a sel).2) / (p0.syu : Int),
-   ((l.p.stepCell l.i j).1 - (truthOrigin a sel).1) / (p0.sxu : Int))
 
 theorem line_seg (a : Acq) (sel : Option (List Int)) (p0 : Pattern) (H : Hyp a sel p0) (f : Int) (first : Row)
     (hft : first.time = f) (lP : LineRec × Nat) (hlP : lP ∈ lineStarts 0 a.lines) (hsel : lP.1 ∈ selLines a sel)
@@ -412,7 +408,7 @@ theorem render_some (a : Acq) (sel : Option (List Int)) (rd : Rendered) (h : ren
 
 theorem spotStr_congr (p q : Pattern) (h1 : p.sxu = q.sxu) (h2 : p.syu = q.syu) (h3 : p.circular = q.circular) :
     p.spotStr = q.spotStr := by
-  unfold Pattern.spotStr; rw [h1, h2, h3]
+  unfold Pattern.spotStr Pattern.spotL; rw [h1, h2, h3]
 
 /-! ## end to end -/
 
@@ -445,17 +441,43 @@ theorem sync_ok (rows : List Row) (sel : Option (List Int)) (ts : List Rat) (del
   simp only [h1, h2, h3, h4, pure, Except.pure]
   rfl
 
-/-- `sync (render a)` for every acquisition in the domain of the ground truth, given that the spot
-size written in the log parses back to the pattern's spot size. -/
-theorem sync_render_of_spot (a : Acq) (sel : Option (List Int)) (isnan : Nat → Bool) (rd : Rendered)
-    (hyp : truthHyp a sel = true) (hr : render a sel = some rd)
-    (hspot : ∀ p ∈ selectedPatterns a sel, spotSize p.spotStr =
-      some [(p.sxu : Rat) / 10000, ((if p.circular then p.sxu else p.syu : Nat) : Rat) / 10000]) :
-    ∃ r, sync rd.rows sel rd.times rd.delay isnan false = .ok r ∧
-      r.origin = truthOrigin a sel ∧
-      (∃ p0, (selectedPatterns a sel).head? = some p0 ∧ r.spot = [(p0.sxu : Rat) / 10000, (p0.syu : Rat) / 10000]) ∧
-      r.pixels = truthImage a sel r.height r.width ∧
-      ∀ e ∈ truthCells a sel, 0 ≤ e.1 ∧ e.1 < (r.height : Int) ∧ 0 ≤ e.2.1 ∧ e.2.1 < (r.width : Int) := by
+theorem sync_ok_squeeze (rows : List Row) (sel : Option (List Int)) (ts : List Rat) (delay : Rat) (isnan : Nat → Bool)
+    (prs : List (Row × Row)) (first : Row × Row) (spot : List Rat) (writes : List ((Int × Int) × Nat))
+    (h1 : pairs (selectRows sel rows) = some prs) (h2 : prs.head? = some first)
+    (h3 : spotSize first.1.spot = some spot)
+    (h4 : (syncImage ts delay prs first.1 spot).2.2 = some writes) :
+    sync rows sel ts delay isnan true = .ok
+      { height := (squeezeImg isnan (syncImage ts delay prs first.1 spot).2.1
+          ((List.range (syncImage ts delay prs first.1 spot).1).map (fun (r : Nat) =>
+            (List.range (syncImage ts delay prs first.1 spot).2.1).map (fun (c : Nat) =>
+              lookupLast writes ((r : Int), (c : Int)))))).1.length
+        width := (squeezeImg isnan (syncImage ts delay prs first.1 spot).2.1
+          ((List.range (syncImage ts delay prs first.1 spot).1).map (fun (r : Nat) =>
+            (List.range (syncImage ts delay prs first.1 spot).2.1).map (fun (c : Nat) =>
+              lookupLast writes ((r : Int), (c : Int)))))).2
+        pixels := (squeezeImg isnan (syncImage ts delay prs first.1 spot).2.1
+          ((List.range (syncImage ts delay prs first.1 spot).1).map (fun (r : Nat) =>
+            (List.range (syncImage ts delay prs first.1 spot).2.1).map (fun (c : Nat) =>
+              lookupLast writes ((r : Int), (c : Int)))))).1
+        origin := (minList (prs.flatMap (fun p => [p.1.x, p.2.x])), minList (prs.flatMap (fun p => [p.1.y, p.2.y])))
+        spot := spot } := by
+  unfold syncImage at h4
+  simp only at h4
+  unfold sync
+  simp only [h1, h2, h3, h4, pure, Except.pure]
+  rfl
+
+/-- everything `sync` computes for a rendered acquisition, before the result is assembled -/
+theorem render_core (a : Acq) (sel : Option (List Int)) (rd : Rendered)
+    (hyp : truthHyp a sel = true) (hr : render a sel = some rd) :
+    ∃ p0 prs first w h wd, Hyp a sel p0 ∧
+      pairs (selectRows sel rd.rows) = some prs ∧ prs.head? = some first ∧
+      spotSize first.1.spot = some [(p0.sxu : Rat) / 10000, (p0.syu : Rat) / 10000] ∧
+      syncImage rd.times rd.delay prs first.1 [(p0.sxu : Rat) / 10000, (p0.syu : Rat) / 10000] = (h, wd, some w) ∧
+      minList (prs.flatMap (fun p => [p.1.x, p.2.x])) = (truthOrigin a sel).1 ∧
+      minList (prs.flatMap (fun p => [p.1.y, p.2.y])) = (truthOrigin a sel).2 ∧
+      (∀ (p : Int × Int) (v : Nat), (p, v) ∈ w ↔ (p.1, p.2, v) ∈ truthCells a sel) ∧
+      (∀ e ∈ truthCells a sel, 0 ≤ e.1 ∧ e.1 < (h : Int) ∧ 0 ≤ e.2.1 ∧ e.2.1 < (wd : Int)) := by
   obtain ⟨p0, H⟩ := truthHyp_spec a sel hyp
   obtain ⟨f, s0, hf, hs0, rfl⟩ := render_some a sel rd hr
   have hp0 : p0 ∈ selectedPatterns a sel := List.mem_of_mem_head? (by rw [H.head]; rfl)
@@ -475,7 +497,7 @@ theorem sync_render_of_spot (a : Acq) (sel : Option (List Int)) (isnan : Nat →
       simpa using hf
     have hspot0 : spotSize l0.pair.1.spot = some [(p0.sxu : Rat) / 10000, (p0.syu : Rat) / 10000] := by
       have : l0.pair.1.spot = p0.spotStr := spotStr_congr l0.p p0 e1 e2 e3
-      rw [this, hspot p0 hp0]
+      rw [this, spotSize_spotStr p0]
       by_cases hc : p0.circular = true
       · simp [hc, H.circ hc]
       · simp [hc]
@@ -483,34 +505,72 @@ theorem sync_render_of_spot (a : Acq) (sel : Option (List Int)) (isnan : Nat →
     have hlen : ((signal a).map (fun x => a.t0 + (x.t - s0.t) / 1000)).length = a.take := by
       rw [List.length_map, signal_length a H.len]
     obtain ⟨w, hw, hmem, hbounds⟩ := render_writes a sel p0 H f l0.pair.1 hft _ rfl
-    have himg : syncImage ((signal a).map (fun x => a.t0 + (x.t - s0.t) / 1000)) ((s0.t - (f : Rat)) / 1000)
-        ((selLines a sel).map LineRec.pair) l0.pair.1 [(p0.sxu : Rat) / 10000, (p0.syu : Rat) / 10000]
-        = ((maxList ((((selLines a sel).map LineRec.pair).map
-              (mkSeg ((signal a).map (fun x => (x.t - (f : Rat)) / 1000)) l0.pair.1 (truthOrigin a sel).1
-                (truthOrigin a sel).2 ((p0.sxu : Rat) / 10000) ((p0.syu : Rat) / 10000))).flatMap
-              (fun g => [g.y0, g.y1])) + 1).toNat,
-           (maxList ((((selLines a sel).map LineRec.pair).map
-              (mkSeg ((signal a).map (fun x => (x.t - (f : Rat)) / 1000)) l0.pair.1 (truthOrigin a sel).1
-                (truthOrigin a sel).2 ((p0.sxu : Rat) / 10000) ((p0.syu : Rat) / 10000))).flatMap
-              (fun g => [g.x0, g.x1])) + 1).toNat,
-           some w) := by
-      have g0 : [(p0.sxu : Rat) / 10000, (p0.syu : Rat) / 10000].getD 0 0 = (p0.sxu : Rat) / 10000 := rfl
+    refine ⟨p0, (selLines a sel).map LineRec.pair, l0.pair, w,
+      (maxList ((((selLines a sel).map LineRec.pair).map
+        (mkSeg ((signal a).map (fun x => (x.t - (f : Rat)) / 1000)) l0.pair.1 (truthOrigin a sel).1
+          (truthOrigin a sel).2 ((p0.sxu : Rat) / 10000) ((p0.syu : Rat) / 10000))).flatMap
+        (fun g => [g.y0, g.y1])) + 1).toNat,
+      (maxList ((((selLines a sel).map LineRec.pair).map
+        (mkSeg ((signal a).map (fun x => (x.t - (f : Rat)) / 1000)) l0.pair.1 (truthOrigin a sel).1
+          (truthOrigin a sel).2 ((p0.sxu : Rat) / 10000) ((p0.syu : Rat) / 10000))).flatMap
+        (fun g => [g.x0, g.x1])) + 1).toNat, H, hpairs, ?_, hspot0, ?_,
+      origin_x a sel p0 H, origin_y a sel p0 H, hmem, ?_⟩
+    · rw [hsl]; rfl
+    · have g0 : [(p0.sxu : Rat) / 10000, (p0.syu : Rat) / 10000].getD 0 0 = (p0.sxu : Rat) / 10000 := rfl
       have g1 : [(p0.sxu : Rat) / 10000, (p0.syu : Rat) / 10000].getD 1 0 = (p0.syu : Rat) / 10000 := rfl
       unfold syncImage
       simp only [hshift, hlen, origin_x a sel p0 H, origin_y a sel p0 H, g0, g1, hw]
-    have hok := sync_ok (emitAll a).rows sel _ _ isnan _ l0.pair _ w hpairs hhead hspot0 (by rw [himg])
-    refine ⟨_, hok, ?_, ⟨p0, H.head, rfl⟩, ?_, ?_⟩
-    · simp only [origin_x a sel p0 H, origin_y a sel p0 H]
-    · simp only
-      unfold truthImage
-      apply List.map_congr_left
-      intro r _
-      apply List.map_congr_left
-      intro c _
-      exact lookup_eq_truth (truthCells a sel) w H.nodup hmem r c
     · intro e he
       have := hbounds e he
-      simp only [himg]
       omega
+
+/-- `sync (render a)` for every acquisition in the domain of the ground truth. -/
+theorem sync_render_core (a : Acq) (sel : Option (List Int)) (isnan : Nat → Bool) (rd : Rendered)
+    (hyp : truthHyp a sel = true) (hr : render a sel = some rd) :
+    ∃ r, sync rd.rows sel rd.times rd.delay isnan false = .ok r ∧
+      r.origin = truthOrigin a sel ∧
+      (∃ p0, (selectedPatterns a sel).head? = some p0 ∧ r.spot = [(p0.sxu : Rat) / 10000, (p0.syu : Rat) / 10000]) ∧
+      r.pixels = truthImage a sel r.height r.width ∧
+      ∀ e ∈ truthCells a sel, 0 ≤ e.1 ∧ e.1 < (r.height : Int) ∧ 0 ≤ e.2.1 ∧ e.2.1 < (r.width : Int) := by
+  obtain ⟨p0, prs, first, w, h, wd, H, hpairs, hhead, hspot, himg, hox, hoy, hmem, hbounds⟩ :=
+    render_core a sel rd hyp hr
+  have hok := sync_ok rd.rows sel rd.times rd.delay isnan prs first _ w hpairs hhead hspot (by rw [himg])
+  refine ⟨_, hok, ?_, ⟨p0, H.head, rfl⟩, ?_, ?_⟩
+  · simp only [hox, hoy]
+  · simp only [himg]
+    unfold truthImage
+    apply List.map_congr_left
+    intro r _
+    apply List.map_congr_left
+    intro c _
+    exact lookup_eq_truth (truthCells a sel) w H.nodup hmem r c
+  · simp only [himg]
+    exact hbounds
+
+/-- the same with `squeeze=True`: the result is the ground-truth image on a canvas that holds every
+visited pixel, with the all-NaN rows and columns removed -/
+theorem sync_render_squeeze_core (a : Acq) (sel : Option (List Int)) (isnan : Nat → Bool) (rd : Rendered)
+    (hyp : truthHyp a sel = true) (hr : render a sel = some rd) :
+    ∃ (r : Result) (h w : Nat), sync rd.rows sel rd.times rd.delay isnan true = .ok r ∧
+      r.origin = truthOrigin a sel ∧
+      (∃ p0, (selectedPatterns a sel).head? = some p0 ∧ r.spot = [(p0.sxu : Rat) / 10000, (p0.syu : Rat) / 10000]) ∧
+      (∀ e ∈ truthCells a sel, 0 ≤ e.1 ∧ e.1 < (h : Int) ∧ 0 ≤ e.2.1 ∧ e.2.1 < (w : Int)) ∧
+      r.pixels = (squeezeImg isnan w (truthImage a sel h w)).1 ∧
+      r.width = (squeezeImg isnan w (truthImage a sel h w)).2 ∧ r.height = r.pixels.length := by
+  obtain ⟨p0, prs, first, w, h, wd, H, hpairs, hhead, hspot, himg, hox, hoy, hmem, hbounds⟩ :=
+    render_core a sel rd hyp hr
+  have hok := sync_ok_squeeze rd.rows sel rd.times rd.delay isnan prs first _ w hpairs hhead hspot (by rw [himg])
+  have hpix : (List.range h).map (fun (r : Nat) => (List.range wd).map (fun (c : Nat) =>
+      lookupLast w ((r : Int), (c : Int)))) = truthImage a sel h wd := by
+    unfold truthImage
+    apply List.map_congr_left
+    intro r _
+    apply List.map_congr_left
+    intro c _
+    exact lookup_eq_truth (truthCells a sel) w H.nodup hmem r c
+  refine ⟨_, h, wd, hok, ?_, ⟨p0, H.head, rfl⟩, hbounds, ?_, ?_, rfl⟩
+  · simp only [hox, hoy]
+  · simp only [himg, hpix]
+  · simp only [himg, hpix]
 
 end Pew.Sync
